@@ -74,12 +74,14 @@ Definition has_errors (o : ExeA.ArgDecode.observed) : bool :=
   match o with ExeA.ArgDecode.ObsDone _ (_ :: _) => true | _ => false end.
 
 (** asynchronous resolvers (kinds "async"): C02 — the data is the synchronous executor's whatever
-    the schedule; which of the admissible errors is reported for a failure-null may differ, their
-    number may not (one per landing site) *)
+    the schedule; WHICH errors are reported may differ (the synchronous executor stops a selection
+    set at the first failing non-null field, the asynchronous one has started the others; when the
+    root is nulled, errors of fields still outstanding are not collected), so of the errors only
+    "some / none" is compared *)
 Definition agrees_async (m : ExeA.ArgModel.run_result) (o : ExeA.ArgDecode.observed) : bool :=
   match m, o with
   | ExeA.ArgModel.Done d es, ExeA.ArgDecode.ObsDone d' es' =>
-      ExeA.ArgCheck.data_agrees d d' && Nat.eqb (List.length es) (List.length es')
+      ExeA.ArgCheck.data_agrees d d' && Bool.eqb (match es with [] => true | _ => false end) (match es' with [] => true | _ => false end)
       && match d with Some j => ExeA.ArgDecode.marshals j | None => true end
   | _, _ => false
   end.
